@@ -438,6 +438,14 @@ func c11Process(c *vk.Ctx, r *rand.Rand, round int) bool {
 			return false
 		}
 	}
+	// the client sees the end of its connection before the server has finished accounting for it
+	// (the close report follows the FIN): give the counters a bounded time to catch up
+	for dl := time.Now().Add(10 * time.Second); int(delta("ERR_CONNECT")) < nEOF0 && time.Now().Before(dl); {
+		time.Sleep(50 * time.Millisecond)
+		if m, err := srv.Metrics(); err == nil {
+			after = m
+		}
+	}
 	if got := delta("ERR_CONNECT"); int(got) != nEOF0 {
 		c.Violation("C11/unserved-exchanges-not-explained-by-cancelled-dials", map[string]any{"clients_saw_empty_eof": nEOF0, "err_connect_delta": got})
 		return false
